@@ -220,7 +220,7 @@ theorem C08_run_exactly_once {cfg : Config S} (hc : cfg.hasComm = true)
     handledTo (steps cfg P k (init cfg P)) dst msg =
       accSendTo (steps cfg P k (init cfg P)) dst msg + accBcastNotBy (steps cfg P k (init cfg P)) dst msg := by
   have h1 := C08_run_lossfree_equality hc hl k hok dst hdst msg
-  have h2 := C08_run_count_any_time hdt (P := P) ⟨k, rfl⟩ dst msg
+  have h2 := C08_run_count_any_time hdt (P := P) (reachable_of_steps cfg P k) dst msg
   have hq0 : queuedTo (steps cfg P k (init cfg P)) dst msg = 0 := by unfold queuedTo; rw [hq]; rfl
   omega
 
